@@ -187,9 +187,9 @@ th!(c07_q_first_pass_first, 12, { first_pass(5, 2, 0) });
 th!(c07_q_first_pass_last, 12, { first_pass(5, 2, 4) });
 //# funcs=SendTransaction::send_pdu(SendData),prepare_eof; bound=empty file; stubs=S1,S2,S3,S5; nocover=middle segment
 th!(c07_q_first_pass_empty, 12, { first_pass(0, 2, 0) });
-//# funcs=SendTransaction::send_pdu(SendData); bound=5-byte file, segment size 2, cursor 2 (middle); stubs=S1,S2,S3,S5
+//# funcs=SendTransaction::send_pdu(SendData); bound=5-byte file, segment size 2, cursor 2 (middle); stubs=S1,S2,S3,S5; nocover=last segment
 th!(c07_t_first_pass_middle, 12, { first_pass(5, 2, 2) });
-//# funcs=SendTransaction::send_pdu(SendData),prepare_eof; bound=4-byte file, segment size 4 (exactly one segment); stubs=S1,S2,S3,S5
+//# funcs=SendTransaction::send_pdu(SendData),prepare_eof; bound=4-byte file, segment size 4 (exactly one segment); stubs=S1,S2,S3,S5; nocover=middle segment
 th!(c07_t_first_pass_l4_s4, 12, { first_pass(4, 4, 0) });
 
 // ---------------------------------------------------------------- retransmission
@@ -239,8 +239,9 @@ th!(c07_q_retransmit_inside, 12, { retransmit(5, 3, VSendState::SendEof, 1, 4, 5
 th!(c07_q_retransmit_cut_at_eof, 12, { retransmit(5, 3, VSendState::SendEof, 3, 6, 5) });
 //# funcs=SendTransaction::send_pdu(SendData),send_missing_data; bound=NAK answered while the first pass is still running (cursor 2): piece (0,2); the first-pass cursor survives; stubs=S1,S2,S3,S5; nocover=range cut at EOF|range beyond EOF
 th!(c07_q_retransmit_during_first_pass, 12, { retransmit(5, 2, VSendState::SendData, 0, 2, 2) });
-//# funcs=SendTransaction::send_pdu(SendEof),send_missing_data; bound=queued piece (6,8) entirely beyond the end of file / empty piece (2,2); stubs=S1,S2,S3,S5
+//# funcs=SendTransaction::send_pdu(SendEof),send_missing_data; bound=queued piece (6,8) entirely beyond the end of file; stubs=S1,S2,S3,S5; nocover=range cut at EOF
 th!(c07_t_retransmit_beyond_eof, 12, { retransmit(5, 3, VSendState::SendEof, 6, 8, 5) });
+//# funcs=SendTransaction::send_pdu(SendEof),send_missing_data; bound=empty queued piece (2,2); stubs=S1,S2,S3,S5; nocover=range cut at EOF|range beyond EOF
 th!(c07_t_retransmit_empty_piece, 12, { retransmit(5, 3, VSendState::SendEof, 2, 2, 5) });
 
 //# funcs=SendTransaction::send_pdu(SendMetadata),send_metadata,get_header; bound=names s/d, size symbolic, closure/checksum type symbolic, no options; stubs=S1,S2,S3
